@@ -305,7 +305,9 @@ def run(ctx, replay):
     if hits:
         ctx.proof_broken.append('forbidden token in Lean sources: ' + '; '.join(hits[:5]))
     if ctx.tier == 'thorough' and getattr(mod, 'LEANCHECKER', True):
-        rc, lout = sh(['lake', 'env', 'leanchecker', 'NflowsModel.Properties.' + prop], cwd=LEAN_DIR, timeout=3000)
+        mods = ['NflowsModel.Properties.' + f[:-5] for f in sorted(os.listdir(os.path.join(LEAN_DIR, 'NflowsModel', 'Properties')))
+                if f.startswith(prop) and f.endswith('.lean')]
+        rc, lout = sh(['lake', 'env', 'leanchecker'] + mods, cwd=LEAN_DIR, timeout=3000)
         ctx.extra['leanchecker_rc'] = rc
         if rc != 0:
             ctx.proof_broken.append('leanchecker rejected NflowsModel.Properties.%s: %s' % (prop, lout[-500:]))
